@@ -259,29 +259,36 @@ func genEdits(r *RNG, nStages, nParts int, yml bool, content string) []cropEdit 
 }
 
 func genInvalidEdit(r *RNG, nStages, nParts int) cropEdit {
-	switch r.Intn(8) {
-	case 0:
-		return cropEdit{Name: "MAXAMAX", Val: "150"}
-	case 1:
-		return cropEdit{Name: "TSUM", Stage: r.Range(1, nStages), Val: "-5"}
-	case 2:
-		return cropEdit{Name: "PRO", Stage: r.Range(1, nStages), Part: r.Range(1, nParts), Val: "1.5"}
-	case 3:
-		if nStages < 9 {
-			return cropEdit{Name: "BAS", Stage: nStages + 1, Val: "5"}
-		}
-		return cropEdit{Name: "WUMAXPF", Val: "0"}
-	case 4:
-		return cropEdit{Name: "DRYSWELL", Stage: r.Range(1, nStages), Val: "1.5"}
-	case 5:
-		return cropEdit{Name: "WUMAXPF", Val: "25"}
-	case 6:
-		if nParts < 5 {
-			return cropEdit{Name: "DEAD", Stage: 1, Part: nParts + 1, Val: "0.01"}
-		}
-		return cropEdit{Name: "VELOC", Val: "1.5"}
+	st := func() int { return r.Range(1, nStages) }
+	// one value just outside the documented range of one parameter, or an index outside the crop's stages / organs
+	table := []func() cropEdit{
+		func() cropEdit { return cropEdit{Name: "MAXAMAX", Val: r.PickS([]string{"0", "100.5", "150", "-3"})} },
+		func() cropEdit { return cropEdit{Name: "MINTMP", Val: r.PickS([]string{"-30", "50", "-45"})} },
+		func() cropEdit { return cropEdit{Name: "WUMAXPF", Val: r.PickS([]string{"0", "20.5", "25"})} },
+		func() cropEdit { return cropEdit{Name: "VELOC", Val: r.PickS([]string{"0", "1.5", "1.01", "50", "150"})} },
+		func() cropEdit { return cropEdit{Name: "YIFAK", Val: r.PickS([]string{"-0.1", "1.1", "4.8"})} },
+		func() cropEdit { return cropEdit{Name: "INITCONCNBIOM", Val: r.PickS([]string{"-1", "101"})} },
+		func() cropEdit { return cropEdit{Name: "INITCONCNROOT", Val: r.PickS([]string{"-0.5", "100.5"})} },
+		func() cropEdit { return cropEdit{Name: "TSUM", Stage: st(), Val: r.PickS([]string{"-5", "10001"})} },
+		func() cropEdit { return cropEdit{Name: "BAS", Stage: st(), Val: r.PickS([]string{"-10.5", "40.5"})} },
+		func() cropEdit { return cropEdit{Name: "VSCHWELL", Stage: st(), Val: r.PickS([]string{"-1", "101"})} },
+		func() cropEdit { return cropEdit{Name: "DAYL", Stage: st(), Val: r.PickS([]string{"-24.5", "24.5"})} },
+		func() cropEdit { return cropEdit{Name: "DLBAS", Stage: st(), Val: r.PickS([]string{"-25", "25"})} },
+		func() cropEdit { return cropEdit{Name: "DRYSWELL", Stage: st(), Val: r.PickS([]string{"-0.1", "1.5"})} },
+		func() cropEdit { return cropEdit{Name: "LUKRIT", Stage: st(), Val: r.PickS([]string{"-0.01", "1.2"})} },
+		func() cropEdit { return cropEdit{Name: "LAIFKT", Stage: st(), Val: r.PickS([]string{"-0.001", "100.5"})} },
+		func() cropEdit { return cropEdit{Name: "WGMAX", Stage: st(), Val: r.PickS([]string{"-0.01", "101"})} },
+		func() cropEdit { return cropEdit{Name: "KC", Stage: st(), Val: r.PickS([]string{"0", "-0.5"})} },
+		func() cropEdit { return cropEdit{Name: "PRO", Stage: st(), Part: r.Range(1, nParts), Val: r.PickS([]string{"1.5", "-0.1"})} },
+		func() cropEdit { return cropEdit{Name: "DEAD", Stage: st(), Part: r.Range(1, nParts), Val: r.PickS([]string{"1.1", "-0.01"})} },
 	}
-	return cropEdit{Name: "KC", Stage: r.Range(1, nStages), Val: "0"}
+	if nStages < 9 {
+		table = append(table, func() cropEdit { return cropEdit{Name: "BAS", Stage: nStages + 1, Val: "5"} }, func() cropEdit { return cropEdit{Name: "TSUM", Stage: nStages + 1, Val: "100"} })
+	}
+	if nParts < 5 {
+		table = append(table, func() cropEdit { return cropEdit{Name: "DEAD", Stage: 1, Part: nParts + 1, Val: "0.01"} })
+	}
+	return table[r.Intn(len(table))]()
 }
 
 func genC18(r *RNG, idx int, tier string) *Scenario {
@@ -319,8 +326,43 @@ func genC18(r *RNG, idx int, tier string) *Scenario {
 			e.Variety = r.PickS(vs)
 		}
 	}
+	switch idx % 9 {
+	case 4:
+		// the overridden file's name is a prefix of another crop file of the same rotation (winter rye, then winter rape)
+		if paramTables.Crops["WR"] && paramTables.Crops["WRA"] {
+			y := w.Start().Year()
+			if DayOf(y, 10, 5) <= w.Start()+5 {
+				y++
+			}
+			w.Rot = []RotEntry{w.Rot[0], {Crop: "WR", Sow: DayOf(y, 10, 5), Harvest: DayOf(y+1, 7, 28), Rex: 100}, {Crop: r.PickS([]string{"WRA", "WRC"}), Sow: DayOf(y+1, 8, 25), Harvest: DayOf(y+2, 7, 20), Rex: 100}}
+			if !paramTables.Crops[w.Rot[2].Crop] {
+				w.Rot[2].Crop = "WRA"
+			}
+			w.Till, w.Cfg.End = nil, DayOf(y+2, 8, 31)
+			w.Cfg.CropParamFmt = "txt"
+		}
+	case 7:
+		// a perennial stand established after another crop and then following itself
+		per := r.PickS([]string{"GR", "AA"})
+		if paramTables.Crops[per] {
+			y := w.Start().Year()
+			w.Rot = []RotEntry{w.Rot[0], {Crop: "SM", Sow: DayOf(y+1, 4, 25), Harvest: DayOf(y+1, 9, 20), Rex: 100}, {Crop: per, Sow: DayOf(y+2, 4, 5), Harvest: DayOf(y+2, 10, 15)}, {Crop: per, Sow: DayOf(y+2, 10, 16), Harvest: DayOf(y+3, 10, 15)}}
+			w.Till, w.Cfg.End = nil, DayOf(y+3, 11, 15)
+			w.Rot = append(w.Rot[:1], w.Rot[2:]...) // the overridden crop is the rotation's second entry in the file: SM goes first only in the variant below
+			if r.Bool(0.7) {
+				w.Rot = []RotEntry{w.Rot[0], {Crop: "SM", Sow: DayOf(y+1, 4, 25), Harvest: DayOf(y+1, 9, 20), Rex: 100}, w.Rot[1], w.Rot[2]}
+			}
+		}
+	}
+	if w.Weather.LastDay < DayOf(w.Cfg.End.Year()+1, 12, 31) {
+		w.Weather.LastDay = DayOf(w.Cfg.End.Year()+1, 12, 31)
+	}
+	if w.Cfg.Prognose > 0 {
+		w.Cfg.Prognose = 0
+	}
+	w.Auto = genAutoLines(r, w)
 	fixAnnual(w)
-	sc := &Scenario{Kind: "batch", Worlds: []*World{w}, Params: map[string]string{"editseed": fmt.Sprint(r.U64())}}
+	sc := &Scenario{Kind: "batch", Worlds: []*World{w}, Params: map[string]string{"editseed": fmt.Sprint(r.U64()), "stratum": fmt.Sprint(idx % 9)}}
 	// lines: 0 baseline, 1 override on the line, 2 edited copy, 3 rejected override; the generator of the edits runs at execution time (it reads the crop file)
 	for i := 0; i < 4; i++ {
 		sc.Lines = append(sc.Lines, BatchLine{World: 0})
@@ -373,6 +415,14 @@ func execC18(sc *Scenario, env *Env) *Result {
 		return res
 	}
 	e := w.Rot[1]
+	if sc.Params["stratum"] == "7" {
+		for _, x := range w.Rot[1:] {
+			if x.Crop == "GR" || x.Crop == "AA" {
+				e = x
+				break
+			}
+		}
+	}
 	yml := w.Cfg.CropParamFmt == "yml"
 	fname := "PARAM." + e.Crop
 	if e.Variety != "" {
@@ -401,6 +451,15 @@ func execC18(sc *Scenario, env *Env) *Result {
 	}
 	if len(edits) == 0 {
 		edits = []cropEdit{{Name: "TSUM", Stage: 1, Val: "123"}}
+	}
+	if sc.Params["stratum"] == "7" && sc.Params["edits"] == "" {
+		have := false
+		for _, ed := range edits {
+			have = have || strings.HasPrefix(ed.Name, "INITCONC")
+		}
+		if !have {
+			edits = append(edits, cropEdit{Name: r.PickS([]string{"INITCONCNBIOM", "INITCONCNROOT"}), Val: r.PickS([]string{"1.5", "2.5", "4", "6.5"})})
+		}
 	}
 	bad := genInvalidEdit(r.Sub("bad", 0), nStages, nParts)
 	for k := uint64(1); k < 50; k++ { // the offending key must not repeat a valid one (a later duplicate would simply win)
